@@ -17,4 +17,15 @@ PROPS = {
         "claim": "18 theorems over the allocator model, for every state satisfying FLInv and every op sequence: Allocate returns the first id of n consecutive free pages (array: the lowest such run; hashmap: for every span the map iteration may pick) or 0 exactly when no run exists; never pages 0/1; Free makes the run pending and not allocatable; ReleasePendingPages releases a page only if no registered reader r has alloctx <= r < freeing txid, releases everything without readers, loses/duplicates nothing; Rollback restores the prior free and pending sets; Write/Read preserves free+pending for every length including >= 0xFFFF; both backends compute the same free list. The model is run op by op against both real backends (3000 random programs quick / 60000 thorough, whole allocator state compared after every op) and decidable monitors (allocOK, never01, freeNotReusable, releaseSafe, releaseLive, rollbackRestores, writeReadPreserves) are evaluated on the implementation's own state.",
         "note": "Trusted: Lean kernel; the hand-written allocator model (tied by correspondence only); verif export hooks reading the allocator state. Two defects found by this check were repaired (F8 reader at txid 0, F10 hashmap Init(empty) stale cache; see known_findings.json fixed).",
     },
+    "C18": {
+        "engines": [("maxsize",)],
+        "extra_modules": ["Bolt.Props.GenC18"],
+        "trusted_base": ["translator tools/extract: Gen.mmapSize/Gen.growSize are regenerated from db.go on every run (validated on a value grid against the real functions)",
+                         "hand model Bolt/Model/Grow.lean of the allocate pre-check / remap / grow, tied by source-fragment facts (Props/GenC18) and by predicting file and mapping size of every real commit"],
+        "assumptions": ["sync-grow mode on a non-Windows OS for the model's prediction (NoGrowSync runs are covered by the file-length monitor only)",
+                        "Go int arithmetic does not overflow for sizes <= MaxMapSize (2^48)"],
+        "partial": "",
+        "claim": "Theorems over the regenerated mmapSize/growSize: for every page size, AllocSize, MaxSize (aligned or not), mapping size and every sequence of high-water-mark allocations of a commit accepted by the pre-check, the file length after grow is <= max(previous length, MaxSize); a rejected transaction fails before the file is touched; mmapSize(x) >= x. The pinned tree violated this (F7, witness theorem f7_witness, repaired by a fix: commit). The engine checks the translated functions against the real ones on ~3400 values, runs 40 (quick) / 600 (thorough) databases under random limits with the file-length, rejected-transaction-is-clean and still-usable monitors after every transaction, and compares the model's predicted file/mapping size with the real ones for every commit that allocates from the high-water mark.",
+        "note": "Trusted: Lean kernel; translator; hand model of ~15 lines of allocate/grow tied by extracted source fragments + correspondence. Windows branch (GOOS == windows) not modelled.",
+    },
 }
